@@ -168,6 +168,11 @@ func loadFindings(path string) ([]Finding, error) {
 // Finish applies floors, matches known findings, writes evidence and replay files, prints the verdict lines
 // and returns the process exit code.
 func (r *Run) Finish(verifDir string, writeEvidence bool) int {
+	if os.Getenv("OTTERLINT_KEYS") != "" {
+		for _, o := range r.obs {
+			fmt.Println("KEY", o.Key, o.Status)
+		}
+	}
 	// floor checks: a rule that matched fewer instances than confirmed by hand is a broken/undecided rule
 	for _, name := range r.order {
 		ri := r.rules[name]
